@@ -102,7 +102,7 @@ ExecAuthorised(by) == \/ cfg.executor = "none"
 C03_ExecuteMustBeAdmitted == Step /\ E.act = "execute" /\ Has(Pid) =>
   LET p == props[Pid] IN
   (execd[Pid] = 0 /\ ~closedH[Pid] /\ PassedNow(p, now') /\ ExecAuthorised(E.by) /\ Harmless(p.msgs)
-     /\ ~(p.dep.kind = "cw20" /\ qx.dtokfail)) => Ok \/ KF3q(Pid)
+     /\ ~(p.dep.kind = "cw20" /\ qx.dtokfail) /\ (p.dep.kind = "native" => bal["ms"] >= p.dep.amt)) => Ok \/ KF3q(Pid)
 C03_CloseAdmitted == Step /\ IsOk("close") =>
   /\ Has(Pid)
   /\ KF3q(Pid) \/ (execd[Pid] = 0 /\ Expired(props[Pid].expires, now') /\ ~PassedNow(props[Pid], now'))
@@ -168,6 +168,12 @@ C06_TableTotal == cfg.flavour = "fixed" => gtotal = SumW(voters)
 C06_FixedTableStatic == Step /\ cfg.flavour = "fixed" => voters' = voters /\ gtotal' = gtotal
 
 \* ------------------------------------------------------------------ C15
+\* proposal messages may spend the deposit denomination out of the multisig's pool (record field amt; 0 for all others)
+RECURSIVE DrainOf(_)
+DrainOf(ms) == IF ms = <<>> THEN 0 ELSE (IF Head(ms).k = "msg" THEN Head(ms).amt ELSE 0) + DrainOf(Tail(ms))
+Spend(b, x) == [b EXCEPT !["ms"] = @ - x]
+\* the multisig can pay the refund of p (it always can unless executed proposals spent the pool)
+CanRefund(p) == p.dep.kind = "native" => bal["ms"] >= p.dep.amt
 TakeMsg(from, amt) == [k |-> "take", tag |-> "", a |-> from, b |-> "ms", amt |-> amt, harmless |-> TRUE]
 RefundMsg(to, amt) == [k |-> "refund", tag |-> "", a |-> to, b |-> "", amt |-> amt, harmless |-> TRUE]
 C15_ProposeTakes == Step /\ IsOk("propose") =>
@@ -181,9 +187,9 @@ C15_ProposeTakes == Step /\ IsOk("propose") =>
 C15_RefundOnExecute == Step /\ IsOk("execute") =>
   /\ Has(Pid)
   /\ LET p == props[Pid] IN
-     IF p.dep.kind = "none" THEN bal' = bal /\ DepositMsgs(out') = <<>>
+     IF p.dep.kind = "none" THEN bal' = Spend(bal, DrainOf(p.msgs)) /\ DepositMsgs(out') = <<>>
      ELSE /\ held[Pid] = 1
-          /\ bal' = Move(bal, "ms", p.proposer, p.dep.amt)
+          /\ bal' = Spend(Move(bal, "ms", p.proposer, p.dep.amt), DrainOf(p.msgs))
           /\ DepositMsgs(out') = <<RefundMsg(p.proposer, p.dep.amt)>>
 C15_RefundOnClose == Step /\ IsOk("close") =>
   /\ Has(Pid)
@@ -196,13 +202,13 @@ C15_RefundOnClose == Step /\ IsOk("close") =>
      ELSE bal' = bal /\ DepositMsgs(out') = <<>>
 C15_NoOtherMoves == Step /\ ~(Ok /\ E.act \in {"propose", "execute", "close"}) => bal' = bal /\ DepositMsgs(out') = <<>>
 \* the multisig holds exactly the deposits not yet returned
-C15_PoolIsHeld == bal["ms"] = SumF(Ids, [id \in Ids |-> held[id] * props[id].dep.amt])
+C15_PoolIsHeld == bal["ms"] = SumF(Ids, [id \in Ids |-> held[id] * props[id].dep.amt]) - SumF(Ids, [id \in Ids |-> execd[id] * DrainOf(props[id].msgs)])
 \* a failed proposal's deposit is actually recoverable: Close on it must succeed
 Recoverable(id, t) ==
   LET p == props[id] IN
   /\ p.dep.kind # "none" /\ p.dep.refund /\ held[id] = 1 /\ execd[id] = 0 /\ ~closedH[id]
   /\ Expired(p.expires, t) /\ ~PassedNow(p, t)
-C15_CloseMustSucceed == Step /\ E.act = "close" /\ Has(Pid) /\ Recoverable(Pid, now')
+C15_CloseMustSucceed == Step /\ E.act = "close" /\ Has(Pid) /\ Recoverable(Pid, now') /\ CanRefund(props[Pid])
                           /\ ~(props[Pid].dep.kind = "cw20" /\ qx.dtokfail) => Ok \/ KF3q(Pid) \/ KF6(Pid)
 \* ------------------------------------------------------------------ beyond the listed properties
 \* Threshold{} reports the configured rule with the current total; ListVoters{} lists exactly the current
